@@ -344,7 +344,7 @@ def r14_inline_map(body, log, kind):
         log.append('R14')
 
 
-def rewrite_body(body, log, r14=None):
+def rewrite_body(body, log, r14=None, mut_refs=None):
     """Apply R1, R2, R3, R4, R9, R10 to a function body.  `log` is a list that
     receives one string per rule application."""
     # R4 -- drop log macros (debug!/trace!), possibly multi-line
@@ -443,6 +443,73 @@ def rewrite_body(body, log, r14=None):
         body = (body[:mo.start()] + 'for i_fe in 0..%s.len() { let %s = %s[i_fe];' % (recv, pat, recv)
                 + inner + '}' + body[b_close + 1 + tail.end():])
         log.append('R16')
+
+    # R20 -- rayon: `let X = RECV.par_iter().map(|P| { BODY });` ... `let [mut] Y = X.collect::<Vec<_>>();`
+    # -> `let mut X = Vec::new(); for P in RECV.iter() { let par_item__ = { BODY }; X.push(par_item__); }` ...
+    # `let [mut] Y = X;`.  Semantic content: an indexed rayon `par_iter().map(f).collect::<Vec<_>>()` returns
+    # `f(&RECV[0]), f(&RECV[1]), ...` in index order; `f` is `Fn + Sync`, so its captures are shared borrows and
+    # the tasks can influence each other only through interior-mutable state reachable from them.  The rewrite
+    # fixes ONE schedule (tasks one after the other, in index order): what it DROPS is every other interleaving.
+    # Applied only when BODY has no `return` / `?` / `break` / `continue` (which could not leave a closure that way).
+    while True:
+        skip = _skip_map(body)
+        mo = None
+        for m in re.finditer(r'\blet\s+(\w+)\s*=\s*([A-Za-z_][\w.]*)\.par_iter\(\)\.map\(\|\s*(\w+)\s*\|\s*\{', body):
+            if not skip[m.start()]:
+                mo = m
+                break
+        if mo is None:
+            break
+        b_open = mo.end() - 1
+        b_close = match_brace(body, b_open, skip)
+        tail = re.match(r'\s*\)\s*;', body[b_close + 1:])
+        inner = body[b_open + 1:b_close]
+        if not tail or re.search(r'\b(return|break|continue)\b', inner) or '?' in re.sub(r'"[^"]*"', '', inner):
+            break
+        x, recv, pat = mo.groups()
+        rest = body[b_close + 1 + tail.end():]
+        mc = re.search(r'\blet\s+(mut\s+)?(\w+)\s*=\s*%s\.collect::<Vec<_>>\(\)\s*;' % re.escape(x), rest)
+        if not mc or len(re.findall(r'\b%s\b' % re.escape(x), rest[:mc.start()])) != 0:
+            break
+        rest = rest[:mc.start()] + 'let %s%s = %s;' % (mc.group(1) or '', mc.group(2), x) + rest[mc.end():]
+        body = (body[:mo.start()] + 'let mut %s = Vec::new(); for %s in %s.iter() { let par_item__ = {%s}; %s.push(par_item__); }'
+                % (x, pat, recv, inner, x) + rest)
+        log.append('R20')
+
+    # R21 -- `X.sort_by(<closure>);` -> `vx_sort_by_abstract(X)` / `(&mut X)`: the comparator closure is dropped and
+    # the call is specified as "X is permuted" (ASSUMED for `slice::sort_by`; WHICH permutation is left open, so
+    # nothing proved may depend on the order).  `mut_refs` = names that are `&mut` parameters.
+    while True:
+        skip = _skip_map(body)
+        mo = None
+        for m in re.finditer(r'\b([a-z_]\w*)\.sort_by\(', body):
+            if not skip[m.start()]:
+                mo = m
+                break
+        if mo is None:
+            break
+        o = mo.end() - 1
+        c = match_brace(body, o, skip)
+        if not body[o + 1:c].lstrip().startswith('|'):
+            break
+        x = mo.group(1)
+        arg = x if x in (mut_refs or ()) else '&mut ' + x
+        body = body[:mo.start()] + 'vx_sort_by_abstract(%s)' % arg + body[c + 1:]
+        log.append('R21')
+
+    # R22 -- `{ let mut G = PATH.write().unwrap(); *G += 1; }` -> `PATH.vx_incr();` (a shared statistics counter
+    # behind Arc<RwLock<usize>>: an opaque type with an assumed, effect-free-for-everything-else contract;
+    # poisoning and overflow of the statistics counter are NOT modelled)
+    def r22(mo):
+        log.append('R22')
+        return '%s.vx_incr();' % mo.group(2)
+    body = re.sub(r'\{\s*let\s+mut\s+(\w+)\s*=\s*([a-z_][\w.]*)\.write\(\)\.unwrap\(\);\s*\*\1\s*\+=\s*1;\s*\}', r22, body)
+
+    # R23 -- legacy integer-module constants: `std::i16::MIN` is by definition `i16::MIN`
+    def r23(mo):
+        log.append('R23')
+        return '%s::%s' % (mo.group(1), mo.group(2))
+    body = re.sub(r'\bstd::(i8|i16|i32|i64|u8|u16|u32|u64|usize|isize)::(MIN|MAX)\b', r23, body)
 
     # R2 (d) -- borrowing loop over a local Vec: `for X in V.iter() {` -> index loop, X = reference to the
     # element (V is not consumed; `slice::Iter` yields `&V[0]`, `&V[1]`, ... in order)
@@ -552,6 +619,10 @@ def rewrite_item(text, log):
     text, n = re.subn(r'\bFxHashMap<\(u8,\s*u64\),\s*Bitboard>', 'AttackCacheMap', text)
     log.extend(['R13'] * n)
     text, n = re.subn(r'\bLruCache<\(u64,\s*u8\),\s*ChessMoveList>', 'MoveCacheMap', text)
+    log.extend(['R13'] * n)
+    text, n = re.subn(r'\bArc<RwLock<FxHashMap<SearchNode,\s*SearchResult>>>', 'SharedSearchCache', text)
+    log.extend(['R13'] * n)
+    text, n = re.subn(r'\bArc<RwLock<usize>>', 'SharedCounter', text)
     log.extend(['R13'] * n)
     text, n = re.subn(r'SmallVec<\[([^;\]]+);\s*\d+\]>', r'Vec<\1>', text)
     log.extend(['R3'] * n)
